@@ -117,7 +117,7 @@ Proof.
   intros Hi Hd Hcl. rewrite rt_req_data_is_gen. unfold rt_req_data_gen.
   destruct (c_in_status c =? c_HTP_STREAM_STOP) eqn:E1; [cbn; apply Z.eqb_eq in E1; rewrite E1; vm_compute; discriminate|].
   destruct (c_in_status c =? c_HTP_STREAM_ERROR) eqn:E2; [cbn; apply Z.eqb_eq in E2; rewrite E2; vm_compute; discriminate|].
-  destruct (match c_in_tx c with None => negb (req_state_eqb (c_in_state c) REQ_IDLE) | Some _ => false end); [cbn; vm_compute; discriminate|].
+  destruct (match c_in_tx c with None => negb (req_state_eqb (c_in_state c) REQ_IDLE) && negb (c_in_status c =? c_HTP_STREAM_TUNNEL) | Some _ => false end); [cbn; vm_compute; discriminate|].
   destruct ((len =? 0)%nat && negb (c_in_status c =? c_HTP_STREAM_CLOSED)) eqn:E0.
   { cbn. apply andb_prop in E0. destruct E0 as [_ Q]. apply negb_true_iff in Q. apply Z.eqb_neq in Q. exact Q. }
   cbv zeta.
